@@ -16,7 +16,7 @@ for d in seeded/*/; do
   prop=$(python3 -c "import json;print(json.load(open('$d/meta.json'))['breaks_property'])")
   git -C "$WT" apply "/verif/$d/patch.diff" || { echo "MISSED  $name: patch does not apply"; missed=$((missed+1)); git -C "$WT" checkout -- .; continue; }
   log=$(mktemp)
-  VERIF_REPO="$WT" ./run.sh "$prop" "$TIER" > "$log" 2>&1; rc=$?
+  VERIF_NO_SEED_REGRESS=1 VERIF_REPO="$WT" ./run.sh "$prop" "$TIER" > "$log" 2>&1; rc=$?
   git -C "$WT" checkout -- . ; git -C "$WT" clean -fdq
   v=$(grep -m1 '^violation:' "$log" | cut -c1-150)
   if [ $rc -eq 1 ] && [ -n "${KEEP_REPLAYS:-}" ]; then
